@@ -127,6 +127,7 @@ func init() {
 
 		// 3. suspicion only after the whole scaled interval passed without an ack; first wait = ProbeTimeout
 		checkProbeNode(c, "C04")
+		checkStreamPingAnswer(c, "C04")
 		pn := c.MustFunc("Memberlist.probeNode")
 		first := false
 		inspectFn(pn, func(nd ast.Node) bool {
